@@ -43,7 +43,7 @@ def joinOr (xs : List String) : String := if xs.isEmpty then "-" else ",".interc
 def parsePrio (ws : List String) : Option Nat :=
   match kv ws "prio" with
   | some "none" => some 999      -- defaultPriorityWhenGroupFound
-  | some p => p.toNat?.bind fun n => if n ≤ 20 then some n else none
+  | some p => p.toNat?.bind fun n => if n ≤ 20 || [100, 101, 150, 300, 500, 998].contains n then some n else none
   | none => none
 
 def parseCfg (ws : List String) : Option (Cfg × Nat × Bool) := do
